@@ -12,15 +12,19 @@ from . import _h_B as H
 
 EXPLANATION = (
   "Decides the bookkeeping behind the direct flags: every function that grows ActionGroup.stored "
-  "grows ActionGroup.direct by the same count on every normal path (gateway: one append each; "
-  "InitNewDoc: extend / [True] * len; calc flushes: length difference), the rollback cuts both at "
-  "the same index and the ActionBundle copies both lists the same way (R1); stored and direct are "
-  "written by the same enumerated functions and by nobody else (R2); indirect_actions raises the "
+  "grows ActionGroup.direct by the same count on every normal path -- decided by counting what "
+  "each path adds to either list symbolically (append: 1; extend / += [flag] * n: len or n; a "
+  "list handed to another function: an unknown amount that `len(stored) - <len(stored) taken "
+  "before>` measures), with private helpers of the class interpreted in place -- the rollback "
+  "cuts both at the same index and the ActionBundle copies both lists the same way (R1); stored "
+  "and direct are written by the same enumerated functions (or private helpers used only by "
+  "them) and by nobody else (R2); indirect_actions raises the "
   "indirection level and lowers it again on every path, exceptional ones included, the level "
   "starts at DIRECT_ACTION, only these two places write it, and the gateway's flag is "
   "`level == DIRECT_ACTION` (R3); every user-action call made from formula code, from "
   "apply_auto_removes and from the empty-column conversion in _ensure_column_accepts_data is "
-  "lexically inside `with ...indirect_actions()`, and calc flushes append False (R4). Not "
+  "lexically inside `with ...indirect_actions()` (a helper called inside the block counts as "
+  "inside), and calc flushes append False (R4). Not "
   "decided: which of the remaining actions a user 'asked for' (that is the meaning of the "
   "indirection level, not a structural fact).")
 
